@@ -126,7 +126,17 @@ def gen_ops(rng, world, n_ev, max_ops=25, allow_faults=True):
         deep = [a for a in below
                 if world['level'][f] >= 2 and a not in world['deps'][f]]
         pat = rng.choice(['ese', 'ese', 'range', 'sse', 'name', 'ege', 'alt',
-                          'alt'])
+                          'alt', 'alt', 'peek'])
+        branchy = [a for a in formulas if 'IF(' in str(world['cells'][a])
+                   or 'CHOOSE(' in str(world['cells'][a])]
+        if pat == 'alt' and branchy and rng.random() < 0.6:
+            # formulas whose precedents depend on the data
+            f = rng.choice(branchy)
+            users = [a for a in formulas if f in closure(world, a)]
+            if users and rng.random() < 0.4:
+                f = rng.choice(users)
+            below = [a for a in closure(world, f)
+                     if world['level'].get(a, 0) == 0]
         tgt = rng.choice(deep or below or inputs)
         if pat == 'ese':
             ops += [op_eval(f), op_set(tgt), op_eval(f)]
@@ -155,8 +165,17 @@ def gen_ops(rng, world, n_ev, max_ops=25, allow_faults=True):
                         {'op': 'get', 'ev': ev(), 'target': a}]
         elif pat == 'alt':
             ops += [op_eval(f)]
-            for _ in range(rng.randint(2, 4)):
+            for _ in range(rng.randint(2, 6)):
                 ops += [op_set(rng.choice(below or inputs)), op_eval(f)]
+        elif pat == 'peek' and blanks:
+            # a referenced cell that is stored nowhere is looked at (not
+            # set) before the formulas that read it are evaluated
+            b = rng.choice(blanks)
+            users = [a for a in formulas if b in world['deps'].get(a, ())]
+            if users:
+                u = rng.choice(users)
+                ops += [{'op': 'get', 'ev': ev(), 'target': b}, op_eval(u),
+                        {'op': 'get', 'ev': ev(), 'target': b}, op_eval(u)]
         elif pat == 'ege':
             ops += [op_eval(f), op_get(f), op_set(tgt), op_get(f), op_eval(f),
                     op_get(f)]
